@@ -236,6 +236,22 @@ fn run_job(t: &mut Tally, job: &Job, d: usize) {
 				}
 				continue;
 			}
+			// a source that is interrupted once (EINTR: "try again") at the start, right after the bytes the
+			// first trials look at, in the middle and at the end: still no panic and no endless retry (a
+			// run that never returns is caught by the worker's stall watchdog)
+			if to == F::Json && input.len() <= 600 {
+				let mut ks = vec![0, 4.min(input.len()), 5.min(input.len()), input.len() / 2, input.len()];
+				ks.sort_unstable();
+				ks.dedup();
+				for k in ks {
+					let r = run_reader(crate::env::InterruptOnceReader::new(input, k, 0), from, to);
+					t.evaluations += 1;
+					t.count("reader-interrupted-once");
+					if let Some(p) = &r.panic {
+						t.bad(format!("panic:{}", job.family), case_of(job, from, to, "reader-interrupted-once", k, &[]), format!("{} input {} from={} to={} (reader interrupted once after {k} bytes) panicked: {p}", job.family, show(&input[..input.len().min(80)]), fname(from), to.name()));
+					}
+				}
+			}
 			let marks = newline_marks(input);
 			for chunk in [0usize, 1] {
 				let pol = policy(chunk, true, false, &marks);
@@ -333,12 +349,12 @@ pub fn run(ctx: &Ctx) -> CheckOutput {
 	let req = |k: &str| (k.to_string(), *tally.counters.get(k).unwrap_or(&0));
 	let required = vec![
 		req("family:tokens"), req("family:seed-edits-and-prefixes"), req("family:all-bytes<=2"), req("family:nesting"), req("family:msgpack-declared-lengths"),
-		req("family:yaml-alias-bombs"), req("family:yaml-anchors"), req("family:refused-value-at-every-node"), req("family:empty"), req("family:utf16/32-yaml-buffer-edges"), req("binary:debug"), req("binary:release"),
+		req("family:yaml-alias-bombs"), req("family:yaml-anchors"), req("family:refused-value-at-every-node"), req("family:empty"), req("family:utf16/32-yaml-buffer-edges"), req("binary:debug"), req("binary:release"), req("reader-interrupted-once"),
 	];
 	CheckOutput {
 		level: "exploration",
 		tally,
-		rule: format!("{njobs} inputs: all token sequences per format (one step deeper than C02's quick tier in the thorough tier), every prefix and single-edit neighbour of the seed corpus, all byte strings <= 2, empty input; adversarial families enumerated completely: nesting of every bracket kind of every format (closed and unclosed, depths up to 10^5{}), every MessagePack header with a declared length in {{0,1,15,16,255,256,65535,65536,2^31,2^32-1}} followed by 0-3 payload bytes (bare and inside an array), UTF-16/32 YAML with multi-byte characters across the 8/16/24 KiB buffer edges in every alignment, YAML alias bombs (fan-out and depth in {{1,2,5,9}}), lone / undefined / self-referential anchors, and a value the target refuses (null, binary, NaN, 2^64-1, null key, array key, f32 NaN) planted at every node of every collection tree; each x source selections (named and detected) x 4 targets x slice and reader (all chunkings for inputs <= 6 bytes, two default policies, <= 1 deviation towards JSON). Runs in {} worker processes on their default main-thread stack with RLIMIT_AS = 24 GiB: a caught panic, a worker killed by a signal (abort, stack overflow, allocation failure) or 90 s without progress is a violation attributed to the job in flight. The adversarial families also go through the debug and release binaries (file and stdin): exit status 0 or 1 only.", if thorough { " and 10^6" } else { "" }, crate::util::threads()),
+		rule: format!("{njobs} inputs (every input of <= 600 bytes also from a source that reports Interrupted once at offset 0 / 4 / 5 / middle / end): all token sequences per format (one step deeper than C02's quick tier in the thorough tier), every prefix and single-edit neighbour of the seed corpus, all byte strings <= 2, empty input; adversarial families enumerated completely: nesting of every bracket kind of every format (closed and unclosed, depths up to 10^5{}), every MessagePack header with a declared length in {{0,1,15,16,255,256,65535,65536,2^31,2^32-1}} followed by 0-3 payload bytes (bare and inside an array), UTF-16/32 YAML with multi-byte characters across the 8/16/24 KiB buffer edges in every alignment, YAML alias bombs (fan-out and depth in {{1,2,5,9}}), lone / undefined / self-referential anchors, and a value the target refuses (null, binary, NaN, 2^64-1, null key, array key, f32 NaN) planted at every node of every collection tree; each x source selections (named and detected) x 4 targets x slice and reader (all chunkings for inputs <= 6 bytes, two default policies, <= 1 deviation towards JSON). Runs in {} worker processes on their default main-thread stack with RLIMIT_AS = 24 GiB: a caught panic, a worker killed by a signal (abort, stack overflow, allocation failure) or 90 s without progress is a violation attributed to the job in flight. The adversarial families also go through the debug and release binaries (file and stdin): exit status 0 or 1 only.", if thorough { " and 10^6" } else { "" }, crate::util::threads()),
 		exhaustive: true,
 		bounds: json!({"deviations": 1, "watchdog_s": 90}),
 		assumptions: vec!["termination is judged by a 90 s no-progress watchdog (the slowest legitimate job measured takes under 10 s)".into()],
